@@ -90,7 +90,12 @@ func (a *Allocator) Allocate(hint net.IPNet) (ret net.IPNet, err error) {
 
 // Free returns the given prefix to the available pool if it was taken.
 func (a *Allocator) Free(prefix net.IPNet) error {
-	idx, err := a.toIndex(prefix.IP.Mask(prefix.Mask))
+	base := prefix.IP.Mask(prefix.Mask)
+	if ones, bits := prefix.Mask.Size(); base == nil || bits != 128 || ones < a.page || !a.containing.Contains(base) {
+		// toIndex computes an absolute distance: only meaningful inside the pool
+		return fmt.Errorf("Could not find prefix in pool: %s is not a block of %s", prefix.String(), a.containing.String())
+	}
+	idx, err := a.toIndex(base)
 	if err != nil {
 		return fmt.Errorf("Could not find prefix in pool: %w", err)
 	}
